@@ -91,7 +91,10 @@ C04(c) ==
 
 \* ---- C02: one confined Boolean expression; user text only in constants / quoted identifiers -----------
 SetOf(sq) == {sq[i] : i \in DOMAIN sq}
-Translate(w) == [i \in DOMAIN w |-> IF w[i] = 42 THEN 37 ELSE IF w[i] = 63 THEN 95 ELSE w[i]]
+RECURSIVE Translate(_)
+Translate(c) == IF c = <<>> THEN <<>>
+                ELSE IF c[1] = 92 /\ Len(c) >= 2 THEN <<c[1], c[2]>> \o Translate(SubSeq(c, 3, Len(c)))
+                ELSE <<IF c[1] = 42 THEN 37 ELSE IF c[1] = 63 THEN 95 ELSE c[1]>> \o Translate(Tail(c))
 \* adversarial cases list fields / vals as byte sequences; leaf cases carry one field and value records
 FieldsOf(c) == IF c.kind = "adv" THEN SetOf(c.fields) ELSE {c.field}
 ValsOf(c) == IF c.kind = "adv" THEN SetOf(c.vals) ELSE {c.vals[i].codes : i \in DOMAIN c.vals} \cup {<<42>>}
